@@ -437,7 +437,8 @@ def name_validity(name: str) -> bool:
 # C02: committed containers (and their manifest sidecars) are never modified again
 
 ACTIONS = ["reopen_r", "reopen_r+", "reopen_a", "create_patch", "write", "delete", "attr", "commit", "discard",
-           "close", "close_nocommit", "merge", "open_list_reversed", "reopen_x", "read", "copy", "reopen_w-", "bogus_mode"]
+           "close", "close_nocommit", "merge", "open_list_reversed", "reopen_x", "read", "copy", "reopen_w-", "bogus_mode",
+           "open_prefix_rw", "merge_onto_existing", "commit_twice"]
 
 
 def _committed_now():
@@ -465,6 +466,14 @@ def _do(C, st, act, n):
                 st["r"] = None
             mode = "zz" if act == "bogus_mode" else act.split("_", 1)[1]
             st["r"] = C(REC_PATH, mode)
+        elif act == "open_prefix_rw":  # writable open of a strict prefix of the chain (explicit list)
+            if r is not None:
+                r.close()
+                st["r"] = None
+            fs = [B.P(k) for k in record_files() if k.endswith(".ih5")]
+            fs = sorted(fs, key=lambda f: (len(str(f)), str(f)))
+            if len(fs) >= 2:
+                st["r"] = C(fs[:-1], "r+")
         elif act == "open_list_reversed":
             if r is not None:
                 r.close()
@@ -495,6 +504,12 @@ def _do(C, st, act, n):
             st["r"] = None
         elif act == "merge":
             r.merge_files(B.P(B.root + "/m%d" % n))
+        elif act == "merge_onto_existing":  # target name already taken by another committed record
+            r.merge_files(B.P(B.root + "/other"))
+        elif act == "commit_twice":
+            r.commit_patch()
+            st["commits"].append((sorted(k for k in record_files()), view(r)))
+            r.commit_patch()
         elif act == "read":
             view(r)
         elif act == "copy":
@@ -505,7 +520,7 @@ def _do(C, st, act, n):
 
 def frames(sit: int, a1: int, a2: int, a3: int, a4: int) -> bool:
     """
-    pre: 2 <= sit <= 5 and 0 <= a1 <= 17 and 0 <= a2 <= 17 and 0 <= a3 <= 17 and 0 <= a4 <= 17
+    pre: 2 <= sit <= 5 and 0 <= a1 <= 20 and 0 <= a2 <= 20 and 0 <= a3 <= 20 and 0 <= a4 <= 20
     post: _
     """
     C = cls()
@@ -533,6 +548,10 @@ def frames_native(sit, acts):
     C = cls()
     if True:
         setup(sit, C)
+        o = C(B.root + "/other", "w")  # an unrelated committed record in the same directory
+        o["o"] = 1
+        o.commit_patch()
+        o.close()
         st = {"r": None, "commits": []}
         committed = _committed_now()
         for n, a in enumerate(acts):
